@@ -86,7 +86,7 @@ PROPS = {
         "technique": "Lean 4 proof (I/O automaton, all fault positions) + fault enumeration on the real binary with strace injection",
         "partial_note": "kernel semantics, page cache, close-time errors are outside the model",
         "rule": "{in place, --out, --dir, --stdout, --pretend} x {improvable, not improvable, invalid} x {--preserve on/off}; per configuration every call index of the skeleton x {one errno (thorough: EIO, ENOSPC, EACCES), SIGKILL}; "
-                "distinct = distinct configurations",
+                "distinct = distinct configurations; the not-improvable inputs include one whose re-serialisation has the same length and other bytes ('not improvable' = nothing strictly smaller)",
     },
     "C13": {
         "needs_binary": True,
@@ -99,7 +99,7 @@ PROPS = {
                  "expiry first seen at every k in 0..K (K counted on an untimed run, single worker thread) and each run is checked for lineage membership (Lean closure) and by the C01/C03, C02, C04 oracles.",
         "note": "Wall-clock expiry inside a running trial is not interruptible by design; the override makes 'the k-th consultation is the first to see it expired' exact. Frames (APNG) are covered in C10's stream.",
         "technique": "Lean 4 proof (induction over guarded steps, all expiry patterns) + fault-position enumeration with the deadline hook",
-        "rule": "per (input, options) pair: every k in 0..K when K<=24, else 0,1,2,K-1,K and 12 random k (thorough: every k); distinct = distinct (lineage request, k)",
+        "rule": "per (input, options) pair: every k in 0..K when K<=24, else 0,1,2,K-1,K and 12 random k (thorough: every k); distinct = distinct (lineage request, k); animated inputs at every k on pools of 1 and of 2 / 4 threads; the timeout option at the ends of its range; every k through the file entry point optimize() (separate destination, in place); the executable with --timeout 0 on five routes incl. standard input",
     },
     "C15": {
         "needs_binary": True,
@@ -166,7 +166,7 @@ PROPS = {
         "partial_note": "clap / process plumbing are outside the model",
         "rule": "flag vectors over -o{0..6,max} -f{single,range,list} -a --scale16 --fast --force --fix --nb --nc --np --ng --nx --nz -i{0,1,keep} -s --strip{safe,all,list} --keep{list,display} -Z --zi --zc, "
                 "argument groups shuffled; routing in {in place,--out,--dir,--stdout,--pretend}; file sets mixing valid / invalid / C2PA files; directory trees with .png/.PNG/.apng/.txt/.jpeg; "
-                "distinct = distinct (flags) / (input, arguments)",
+                "distinct = distinct (flags) / (input, arguments); routes in place / --out / --dir (also several missing levels deep) / --stdout / --pretend / --pretend with a destination / standard input; the --nx --nz corner on multi-IDAT files; truncated inputs (exit status 1); --timeout with never-expiring values, --threads, -v; file sets with skipped and failing files delivered under --threads 1 / 2 / 4",
     },
     "C10": {
         "needs_binary": True,
@@ -211,7 +211,7 @@ PROPS = {
                 "hold for every input and option set. Tie of finalMemory/finalFile to lib.rs:233-246,325-330 is by the end-to-end oracles.",
         "technique": "Lean 4 proof (case analysis + induction over run chains) + correspondence/e2e oracle",
         "rule": "is_fully_optimized on boundary and random size pairs x force; e2e: generated PNGs of all legal type/depth pairs x generated options with force=false, "
-                "plus 2-step chains with fresh options; files: in place / --out / pretend incl. already-optimal inputs; distinct = distinct (input bytes, options)",
+                "plus 2-step chains with fresh options; files: in place / --out / pretend incl. already-optimal inputs; distinct = distinct (input bytes, options); oracle-files: destinations that are the input under another name (sub/../in.png, symbolic link, hard link), stale longer destinations, inputs whose rewrite is strictly larger than the input; one e2e case in ten through the executable",
     },
     "C05": {
         "needs_binary": True,
@@ -230,7 +230,7 @@ PROPS = {
         "partial_note": "post-header code paths and runtime (allocator, stack) are outside the theorems",
         "rule": "corpus of 32 generated files (15 type/depth pairs x interlaced/not with gAMA/bKGD/tEXt/iCCP/caBX, 2 APNGs) x mutations: single-bit flips, byte sets, truncations (strided in quick), "
                 "chunk deletion/duplication/swap, payload-length edits with fixed-up CRC, IHDR field edits (zero/huge dimensions, every depth/colour-type/interlace code), fcTL/acTL/iCCP/caBX/PLTE/tRNS edits, "
-                "x fix_errors x strip policy; distinct = distinct mutated byte strings",
+                "x fix_errors x strip policy; distinct = distinct mutated byte strings; one case in twelve also through the executable (file or standard input): exit status 0 / 1 / 3, never a signal, within 60 s",
     },
     "C11": {
         "lean": ["OxiModel.Props.C11"],
@@ -244,7 +244,7 @@ PROPS = {
                 "Pixel indices beyond the palette have no defined meaning and are not generated.",
         "technique": "Lean 4 proof (decision logic) + correspondence + e2e oracle",
         "rule": "argument tuples over all colour types x depths (legal or not) x zero/huge/normal dimensions x palette sizes {0,1,2^d+1,300,valid} x data lengths {exact,-1,+1,random}; "
-                "oracle: generated grids of the 15 legal pairs with attached tEXt/pHYs/private chunks and ICC profiles x generated options; distinct = distinct requests / (image, options)",
+                "oracle: generated grids of the 15 legal pairs with attached tEXt/pHYs/private chunks and ICC profiles x generated options; distinct = distinct requests / (image, options); oracle: attached tEXt / pHYs / private chunks, bKGD / hIST / sBIT (format-bound), sRGB, ICC profiles; one case in twenty an indexed image with a pass-isolated colour written interlaced at presets 3 / 4",
     },
     "C06": {
         "needs_binary": True,
@@ -261,7 +261,7 @@ PROPS = {
         "technique": "Lean 4 proof (invariant over a transition system, all interleavings) + event-history replay",
         "partial_note": "runtime part (rayon, atomics, libdeflate/zopfli determinism) is assumed as contracts R1, D2, D3 and exercised, not proved",
         "rule": "generated images x options x pool size in {1,2,3,4,8,16} x delay injection; one history per evaluator instance; tie images (1..3 px, uniform) so that "
-                "tie-breaks decide; distinct = distinct history lines / (input, options) pairs",
+                "tie-breaks decide; distinct = distinct history lines / (input, options) pairs; the executable over file sets (with a skipped and an undecodable file) under --threads 1 / 2 / 4 / 16, directories compared",
     },
     "C16": {
         "lean": ["OxiModel.Props.C16"],
@@ -336,7 +336,7 @@ PROPS = {
         "technique": "Lean 4 proof (omega over unbounded sizes) + exhaustive-to-bound model/implementation correspondence",
         "rule": "all (w,h) in 1..24 (thorough 1..72) x legal colour-type/depth pairs x interlaced/not x with/without filter byte, plus sparse large sizes and "
                 "malformed data lengths; interlace/deinterlace on position-labelled images for all (w,h) in 1..12 (thorough 1..40) plus random sizes up to 72; "
-                "distinct = distinct request lines",
+                "distinct = distinct request lines; oracle-geom-e2e: the layout change through optimize_from_memory for every size to 9x9 (20x20) x 14 type / depth pairs x both directions",
     },
     "C19": {
         "lean": ["OxiModel.Props.C19"],
